@@ -106,6 +106,26 @@ func (p protoDesc) wire() []byte {
 	return append(out, p.Payload...)
 }
 
+// wirePermuted encodes a graphsync protocol with its three map entries in a non-canonical order (perm 1..5).
+func (p protoDesc) wirePermuted(perm int) []byte {
+	c, err := cid.Decode(p.Cid)
+	if err != nil {
+		panic(err)
+	}
+	var e [3][]byte
+	lb := append([]byte{0}, c.Bytes()...)
+	e[0] = append(append(append(append(cborHead(3, 8), "PieceCID"...), 0xd8, 0x2a), cborHead(2, uint64(len(lb)))...), lb...)
+	e[1] = append(append(cborHead(3, 12), "VerifiedDeal"...), cborBool(p.Verified))
+	e[2] = append(append(cborHead(3, 13), "FastRetrieval"...), cborBool(p.Fast))
+	orders := [][3]int{{0, 1, 2}, {0, 2, 1}, {1, 0, 2}, {1, 2, 0}, {2, 0, 1}, {2, 1, 0}}
+	o := orders[perm%6]
+	out := append(uvarint(idGraphsync), 0xa3)
+	for _, i := range o {
+		out = append(out, e[i]...)
+	}
+	return out
+}
+
 func (p protoDesc) build() metadata.Protocol {
 	switch p.Kind {
 	case "bitswap":
@@ -396,6 +416,12 @@ func genDec(t *rapid.T) decCase {
 		b = genValidWire(t)
 		b = append(b, uvarint(genUnknownCode(t))...)
 		b = append(b, rapid.SampledFrom(hostile).Draw(t, "hostile")...)
+	case 4: // graphsync protocol whose CBOR map entries are permuted (valid CBOR, same length, not canonical), possibly followed by another protocol
+		pd := protoDesc{Kind: "graphsync", Cid: gen.Cid().Draw(t, "piece").String(), Verified: rapid.Bool().Draw(t, "v"), Fast: rapid.Bool().Draw(t, "f")}
+		b = pd.wirePermuted(rapid.IntRange(1, 5).Draw(t, "perm"))
+		if rapid.Bool().Draw(t, "follow") {
+			b = append(b, protoDesc{Kind: "gateway"}.wire()...)
+		}
 	case 3: // graphsync header followed by CBOR with a hostile declared string length
 		b = append(uvarint(idGraphsync), rapid.SampledFrom([][]byte{{0x79, 0x78, 0x30}, {0x7a, 0x00, 0x10, 0x00, 0x00}, {0x5a, 0x00, 0x7f, 0xff, 0xff}, {0xa3, 0x68, 'P', 'i', 'e', 'c', 'e', 'C', 'I', 'D', 0xd8, 0x2a, 0x5a, 0x00, 0x20, 0x00, 0x00}, {0x7a, 0xff, 0xff, 0xff, 0xff}, {0x9a, 0x7f, 0xff, 0xff, 0xff}, {0x5f, 0x5a, 0x00, 0x10, 0x00, 0x00}}).Draw(t, "hostile-cbor")...)
 		b = append(b, gen.Bytes(0, 8).Draw(t, "tail")...)
